@@ -163,7 +163,11 @@ def rownum(run, p):
     run.rule('C17-ROWNUM', 'in the detection writer rows are numbered before failing records are filtered out: the RowNumber column counts '
                            'positions in the input, so no row filter precedes the numbering')
     f = p.method('PandasConstraintDetector', 'write_detected_records')
+    def numbers_rows(g):
+        return any(isinstance(x, ast.Call) and norm(x.func).endswith('RangeIndex') for x in ast.walk(g.node))
     nums = [x for x in ast.walk(f.node) if isinstance(x, ast.Call) and norm(x.func).endswith('RangeIndex')]
+    # or a helper of the same class does the numbering: the call to it is where rows are numbered
+    nums += [c for c, ts, _k in p.calls(f) if isinstance(c, ast.Call) and any(g.cls is f.cls and g is not f and numbers_rows(g) for g, _ctx in ts)]
     filters = []
     for s in ast.walk(f.node):
         if isinstance(s, ast.Assign) and any(isinstance(x, ast.Subscript) and isinstance(x.slice, ast.Compare) and 'nfailname' in names_in(x.slice)
